@@ -94,8 +94,8 @@ def run(tier, seed):
         want = {"cb": "cb:%d:%s" % (e["node"], e["path"]), "gen": "gen:%d" % e["node"], "404": "404", "501": "501"}[e["k"]]
         if got != want:
             key = finding_key(s)
-            nfail += 1
-            if nfail <= 8 or key:
+            nfail += 0 if key else 1          # keyed (open finding) failures do not use up the report budget
+            if key or nfail <= 8:
                 chk.violation("config %s allowed %s: %s %s Host %r routed to %s, reference: %s" % (
                     s["sc"]["cfg"], s["masks"], s["sc"]["m"], s["sc"]["t"], s["sc"]["host"], got, want),
                     {"scenario": j, "expect": e, "observed": o}, key=key)
